@@ -12,7 +12,7 @@ import simfam
 fams = []
 def fam(name, harness, entry, tier='quick', witness=False, w=1, opts=None, **kw):
     defs = ['%s=%s' % (k, v) for k, v in kw.items()] + (['WITNESS=1'] if witness else [])
-    o = {'time_limit': 420 if tier == 'quick' else 2400, 'max_viol': 400}
+    o = {'time_limit': 900 if tier == 'quick' else 2400, 'max_viol': 400}
     o.update(opts or {})
     fams.append(Family(name + ('-witness' if witness else ''), harness, entry, defs, opts=o, tier=tier, witness=witness, weight=w, validate=2))
 # event queue at capacity while the dispatcher holds the dequeued event and wakes its waiters
